@@ -187,6 +187,41 @@ Proof.
     | split; [reflexivity | intros t' Hne; unfold look; cbn; rewrite lookt_set, (E t' Hne); reflexivity] ].
 Qed.
 
+(* the shape of [AResumeCancelled]: [finish] over a state that differs from [s] in the lock table / queue and the
+   [t_granted] flags only *)
+Lemma resume_cancelled_shape s t s' : resume_cancelled s t = Some s' ->
+  exists th u1, get_thread (threads s) t = Some th /\ t_gen th = gen s /\ t_pc th = PEnqueued /\
+     t_cancelled th = true /\
+     glob u1 = glob (of_state s) /\ (forall t', lookt (u_threads u1) t' = look s t') /\
+     u_iks u1 = v_iks s /\ u_refs u1 = v_refs s /\ u_revs u1 = v_revs s /\ u_published u1 = published s /\
+     s' = to_state (gen s) (finish t th (RErr ELockCancelled) false true true true u1).
+Proof.
+  intros H. unfold resume_cancelled in H.
+  destruct (get_thread (threads s) t) as [th|] eqn:Hget; [|discriminate].
+  destruct (Nat.eqb (t_gen th) (gen s)) eqn:Hg; simpl in H; [|discriminate]. apply Nat.eqb_eq in Hg.
+  destruct (t_pc th) eqn:Hpc; try discriminate.
+  destruct (t_cancelled th) eqn:Hc; [|discriminate]. injection H as <-.
+  exists th. exists (if t_granted th then unlock t (of_state s) else dequeue t (of_state s)).
+  split; [reflexivity|]. split; [exact Hg|]. split; [exact Hpc|]. split; [exact Hc|].
+  destruct (t_granted th).
+  - destruct (unlock_rest t (of_state s)) as (A & B & C & D).
+    split; [apply unlock_glob|]. split; [intros t'; apply unlock_look|]. repeat split; auto.
+  - repeat split; reflexivity.
+Qed.
+
+Lemma resume_cancelled_frame s t s' : resume_cancelled s t = Some s' ->
+  persisted s' = persisted s /\ forall t', t' <> t -> look s' t' = look s t'.
+Proof.
+  intros H. destruct (resume_cancelled_shape _ _ _ H) as (th & u1 & _ & _ & _ & _ & Hgl & Hl & _ & _ & _ & _ & ->).
+  split.
+  - cbn. inversion Hgl. auto.
+  - intros t' Hne. unfold look. cbn. rewrite lookt_set, Hl.
+    destruct (Nat.eqb t t') eqn:E; auto. apply Nat.eqb_eq in E. congruence.
+Qed.
+
+Lemma cancel_persisted s t s' : cancel s t = Some s' -> persisted s' = persisted s.
+Proof. intros H. destruct (cancel_frame _ _ _ H) as (th & _ & ->). reflexivity. Qed.
+
 Lemma step_persisted s a s' : step s a = Some s' -> forall e, In e (persisted s') -> In e (all_log s).
 Proof.
   intros H e He. destruct a; simpl in H.
@@ -197,6 +232,8 @@ Proof.
     apply in_or_app. destruct He; auto. right. apply in_or_app; auto.
   - destruct (v_batch s); [|discriminate]. injection H as <-. apply persisted_all; auto.
   - injection H as <-. apply persisted_all; auto.
+  - rewrite (cancel_persisted _ _ _ H) in He. apply persisted_all; auto.
+  - apply resume_cancelled_frame in H. destruct H as (Hp & _). rewrite Hp in He. apply persisted_all; auto.
 Qed.
 
 Lemma step_finished s a s' t th : look s t = Some th -> t_pc th = PFinished -> step s a = Some s' ->
@@ -204,7 +241,7 @@ Lemma step_finished s a s' t th : look s t = Some th -> t_pc th = PFinished -> s
 Proof.
   intros Hl Hpc H.
   assert (Hk : option_map kill (look s t) = Some th) by (rewrite Hl; simpl; unfold kill; rewrite Hpc; auto).
-  destruct a as [t' rq|t'| | |]; simpl in H.
+  destruct a as [t' rq|t'| | | |t'|t']; simpl in H.
   - apply start_frame in H. destruct H as (Hn & _ & Ho). rewrite Ho; auto.
     intros ->. rewrite (look_none _ _ Hn) in Hl. discriminate.
   - destruct (Nat.eq_dec t t') as [<-|Hne].
@@ -214,6 +251,12 @@ Proof.
   - unfold persist_ok in H. destruct (v_batch s); [|discriminate]. injection H as <-. exact Hl.
   - destruct (v_batch s); [|discriminate]. injection H as <-. rewrite look_crash. exact Hk.
   - injection H as <-. rewrite look_crash. exact Hk.
+  - rewrite (cancel_look _ _ _ H). exact Hl.
+  - destruct (Nat.eq_dec t t') as [<-|Hne].
+    + exfalso. destruct (look_inv _ _ _ Hl) as (th0 & Hg & ->).
+      destruct (resume_cancelled_shape _ _ _ H) as (th1 & _ & Hg1 & _ & Hpc1 & _).
+      rewrite Hg in Hg1. inversion Hg1; subst th1. cbn in Hpc. congruence.
+    + apply resume_cancelled_frame in H. destruct H as (_ & Ho). rewrite Ho; auto.
 Qed.
 
 Definition quiet (t : tid) (th : thread) (s : state) : Prop :=
@@ -275,4 +318,70 @@ Proof.
   intros R t th Hget Hd Hpc. apply reachable_inv in R.
   pose proof (i_thr _ R _ _ (look_get _ _ _ Hget)) as Hti. apply tinv_erase_2 in Hti.
   pose proof (ti_pc _ _ _ _ _ Hti) as H. unfold pc_ok, dry_th in H. rewrite Hpc, Hd in H. tauto.
+Qed.
+
+(* ---- cancellation of a request that waits for its account locks ------------------------------------------------ *)
+(* a request that gave up waiting for its locks has finished, built no entry, owns no entry anywhere (disk, batcher
+   queue, batch being written) and is not inside the append critical section *)
+Theorem e1_cancelled_no_trace s t th : reachable s -> get_thread (threads s) t = Some th ->
+  t_resp th = Some (RErr ELockCancelled) ->
+  t_entry th = None /\ t_pc th = PFinished /\
+  (forall e, In e (persisted s) -> e_owner e <> t) /\
+  (forall e, In e (v_pending s) -> e_owner e <> t) /\
+  (forall b e, v_batch s = Some b -> In e b -> e_owner e <> t) /\
+  v_cs s <> Some t.
+Proof.
+  intros R Hget Hr. pose proof (answered_finished s R t th _ Hget Hr) as Hpc. apply reachable_inv in R.
+  pose proof (look_get _ _ _ Hget) as Hlook.
+  pose proof (i_thr _ R _ _ Hlook) as Hti. apply tinv_erase_2 in Hti.
+  pose proof (ti_err _ _ _ _ _ Hti _ Hr) as Hent.
+  assert (Hno : forall e, In e (all_log s) -> e_owner e <> t).
+  { intros e He Ho. destruct (i_own _ R e He) as (th1 & A & B). rewrite Ho, Hlook in A.
+    inversion A; subst th1. cbn in B. congruence. }
+  split; [exact Hent|]. split; [exact Hpc|]. split; [|split; [|split]].
+  - intros e He. apply Hno. apply persisted_all; auto.
+  - intros e He. apply Hno. unfold all_log. apply in_or_app; right. apply in_or_app; right. apply in_or_app; auto.
+  - intros b e Hb He. apply Hno. unfold all_log, batch_l. rewrite Hb. apply in_or_app; right. apply in_or_app; auto.
+  - intros Hc. destruct (i_cs _ R _ Hc) as (th0 & Hl0 & _ & Hin0 & _). rewrite Hlook in Hl0. inversion Hl0; subst th0.
+    unfold in_cs in Hin0. cbn in Hin0. rewrite Hpc in Hin0. discriminate.
+Qed.
+
+(* giving up writes nothing, publishes nothing, and releases the request's idempotency key, reference and revert
+   reservation ([reachable] is not needed: the facts follow from the definition of the step) *)
+Theorem e1_cancelled_step s t s' : reachable s -> step s (AResumeCancelled t) = Some s' ->
+  persisted s' = persisted s /\ v_pending s' = v_pending s /\ v_batch s' = v_batch s /\
+  published s' = published s /\ v_last s' = v_last s /\ v_lasttx s' = v_lasttx s /\
+  exists th th', get_thread (threads s) t = Some th /\ get_thread (threads s') t = Some th' /\
+    t_resp th' = Some (RErr ELockCancelled) /\
+    (rq_ik (t_req th) <> 0%N -> ~ In (rq_ik (t_req th)) (v_iks s')) /\
+    (rq_ref (t_req th) <> 0%N -> ~ In (rq_ref (t_req th)) (v_refs s')) /\
+    (rq_kind (t_req th) = KRevert -> ~ In (rq_revert (t_req th)) (v_revs s')).
+Proof.
+  intros _ H. simpl in H.
+  destruct (resume_cancelled_shape _ _ _ H) as (th & u1 & Hget & _ & _ & _ & Hgl & _ & Hik & Hrf & Hrv & Hpub & ->).
+  inversion Hgl as [[Hp Hl Hlt Hpe Hb Hc Hu]].
+  cbn. do 6 (split; [first [assumption|reflexivity]|]).
+  exists th. eexists. split; [exact Hget|]. split; [rewrite get_set, Nat.eqb_refl; reflexivity|].
+  split; [reflexivity|]. split; [|split].
+  - intros Hne. apply N.eqb_neq in Hne. rewrite Hne. cbn. apply remove_N_not_in.
+  - intros Hne. apply N.eqb_neq in Hne. rewrite Hne. cbn. apply remove_N_not_in.
+  - intros Hk. rewrite Hk. apply remove_nat_not_in.
+Qed.
+
+(* cancelling by itself changes nothing observable: the disk, the events and every other request are untouched *)
+Theorem e1_cancel_only_flag s t s' : step s (ACancel t) = Some s' ->
+  persisted s' = persisted s /\ published s' = published s /\
+  forall u, u <> t -> get_thread (threads s') u = get_thread (threads s) u.
+Proof.
+  intros H. simpl in H. destruct (cancel_frame _ _ _ H) as (th & Hget & ->).
+  split; [reflexivity|]. split; [reflexivity|].
+  intros u Hne. cbn. rewrite get_set. destruct (Nat.eqb t u) eqn:E; auto. apply Nat.eqb_eq in E. congruence.
+Qed.
+
+(* the cancelled request itself keeps everything but the flag *)
+Lemma e1_cancel_self s t s' : step s (ACancel t) = Some s' ->
+  exists th, get_thread (threads s) t = Some th /\ get_thread (threads s') t = Some (with_cancelled th).
+Proof.
+  intros H. simpl in H. destruct (cancel_frame _ _ _ H) as (th & Hget & ->).
+  exists th. split; auto. cbn. rewrite get_set, Nat.eqb_refl. reflexivity.
 Qed.
